@@ -203,7 +203,8 @@ class Engine:
                     return ("data_id", {"at": p, "model": repr(m.data_id), "real": repr(r.data_id), "data": repr(m.data)})
                 if self.typed and getattr(r, "kind", None) != m.kind:
                     return ("kind", {"at": p, "model": m.kind, "real": getattr(r, "kind", None)})
-                if norm_meta(r.meta) != norm_meta(m.meta):
+                # documented: `node.meta` is None when there is no metadata (not an empty dict)
+                if r.meta != m.meta or (r.meta is None) != (m.meta is None):
                     return ("meta", {"at": p, "model": m.meta, "real": r.meta})
                 if m.node_id is not None and r.node_id != m.node_id:
                     return ("node_id", {"at": p, "model": m.node_id, "real": r.node_id})
@@ -530,6 +531,43 @@ class Engine:
         """<parent>.add(<the tree the parent lives in>, ...)"""
         return self._op_add_tree(parent_ref, before, deep, own=True)
 
+    def _op_shortcut_tree(self, how, anchor_ref, deep):
+        """<anchor>.append_child / prepend_child / prepend_sibling / append_sibling(<second tree>[, deep=...]):
+        the shortcut methods with a whole tree as child (deep defaults to true for a tree, as for add_child)"""
+        route = f"{how}(tree)"
+        mt = self.model
+        anchor = self.node(anchor_ref)
+        if anchor is None or self.typed:
+            return Plan("na", route)
+        ranchor = self.real(anchor)
+        kw = {}
+        if deep is not None:
+            kw["deep"] = deep
+        call = lambda: getattr(ranchor, how)(self.tree2, **kw)  # noqa: E731
+        tops = list(self.model2.root.children)
+        if not tops:
+            return Plan("unspecified", route + ":empty-source", call=call)
+        if how in ("append_child", "prepend_child"):
+            parent = anchor
+            pos = None if (how == "append_child" or not anchor.children) else 0
+        else:
+            parent = anchor.parent
+            i = [k for k, c in enumerate(parent.children) if c is anchor][0]
+            pos = i if how == "prepend_sibling" else (i + 1 if i + 1 < len(parent.children) else None)
+        if any(mt.has_sibling_id(parent, t.data_id) for t in tops):
+            return Plan("refuse", route + ":collision", call=call, exc=E_UNIQUE)
+        dp = True if deep is None else bool(deep)
+
+        def apply():
+            copies = [mt.copy_branch(t, dp, kind_override=self._top_copy_kind(t)) for t in tops]
+            for k, n in enumerate(copies):
+                mt.insert(parent, n, None if pos is None else pos + k)
+            return None
+
+        p = Plan("valid", route, call=call, apply=apply)
+        p.note = "no-return-check"
+        return p
+
     def _op_tree2_copy_to(self, target_ref, deep, own=False):
         """<second tree>.copy_to(<target in tree 1>, deep=...)"""
         route = ("own.copy_to" if own else "tree2.copy_to") + ("" if deep is None or deep else ":shallow")
@@ -604,6 +642,13 @@ class Engine:
         if target_ref == -2:
             call = lambda: rn.move_to(self.tree2)  # noqa: E731
             return Plan("refuse", route + ":cross-tree", call=call, exc=E_NOTIMPL)
+        if target_ref == -3:
+            # a NODE of the second tree as target (the same refusal as for the tree object itself)
+            tops2 = list(self.tree2.children)
+            if not tops2:
+                return Plan("na", route)
+            call = lambda: rn.move_to(tops2[0])  # noqa: E731
+            return Plan("refuse", route + ":cross-tree-node", call=call, exc=E_NOTIMPL)
         target = self.parent_of(target_ref)
         rtarget = self.real(target)
         mb, rb = self.decode_before(target, before)
